@@ -245,7 +245,7 @@ def bounded_native(b, tier):
     if stale:
         b.bounded.append(dict(name="native grid vs closed form", bound="not run", result=f"compiled solver stale with respect to {stale}", counted_as_proved=False))
         return
-    cfg = dict(radii=[1e5, 1e7] if tier == "quick" else [1e5, 1e6, 1e7, 1e8], degrees=[2, 3] if tier == "quick" else list(range(2, 11)),
+    cfg = dict(radii=[1e5, 1e7] if tier == "quick" else [1e5, 1e6, 1e7, 1e8], degrees=[2, 3] if tier == "quick" else [2, 3, 5, 10],
                methods=["RK45"] if tier == "quick" else ["RK23", "RK45", "DOP853"])
     out = native.run(dict(code=_NATIVE, args=cfg), timeout=1500)
     b.bounded.append(dict(name="compiled radial_solver on homogeneous spheres vs the Kelvin closed form (K/mu = 1e3, rtol 1e-10), error on the O(1) scale",
